@@ -141,7 +141,7 @@ def gen_table(
             "tag": rid,
             "ModifiedPeptide": modpep,
             "Precursor": f"{modpep}/{charge}",
-            "PeptideGroup": f"grp{hash_stable(pep) % max(3, n_pep_t // 2)}",
+            "PeptideGroup": f"{'grp' if r['target'] else 'dgrp'}{hash_stable(pep) % max(6, n_pep_t // 2)}",
             "Peptide": pep,
             "Proteins": prot,
         }
